@@ -40,6 +40,15 @@ fn payloads_present(_m: &prometheus::proto::Metric) -> Vec<NType> {
 }
 
 fn check(s: &Scenario, order: &[usize]) -> Result<BTreeMap<String, NType>, Verdict> {
+    let reg = match build(s, order) {
+        Ok(r) => r,
+        Err(e) => return Err(fail("valid-scenario-rejected", format!("{} ;; {}", e, describe(s)))),
+    };
+    check_registry(s, &reg)
+}
+
+/// `reg` holds exactly the collectors of `s` (however it got there): gather it and judge every sample.
+fn check_registry(s: &Scenario, reg: &prometheus::Registry) -> Result<BTreeMap<String, NType>, Verdict> {
     // real value of every sample, keyed by (unprefixed family name, sorted own labels)
     let mut real: BTreeMap<(String, Vec<(String, String)>), (NType, NValue)> = BTreeMap::new();
     let mut types_by_name: BTreeMap<String, BTreeSet<NType>> = BTreeMap::new();
@@ -52,10 +61,6 @@ fn check(s: &Scenario, order: &[usize]) -> Result<BTreeMap<String, NType>, Verdi
             real.insert((c.name.clone(), labels), (c.kind.ntype(), value_for_cfg(c.kind, *seed, c.hist_cfg)));
         }
     }
-    let reg = match build(s, order) {
-        Ok(r) => r,
-        Err(e) => return Err(fail("valid-scenario-rejected", format!("{} ;; {}", e, describe(s)))),
-    };
     let fams = reg.gather();
     let mut types = BTreeMap::new();
     for mf in &fams {
@@ -120,7 +125,8 @@ impl Property for C14 {
          otherwise that class is excluded by construction and counted. 6 builds under generated registration permutations and fresh \
          hash seeds. Oracle: every sample carries exactly the payload message of its family's declared type (protobuf build), reads \
          as the metric's real distinctive value, the text encoding round-trips to the same values, and each family's type is the same \
-         in all 6 builds. Non-trivial: >=2 collectors of different metric types registered and >=1 vector. Distinct = decoded choices."
+         in all 6 builds; in a third of the unmixed cases one name then changes hands inside a registry that has been gathered \
+         (its collectors are unregistered and collectors of another kind registered under it) and is gathered and judged again. Non-trivial: >=2 collectors of different metric types registered and >=1 vector. Distinct = decoded choices."
     }
     fn assumptions(&self) -> Vec<&'static str> {
         vec!["payload presence is only observable in the protobuf-backed data model (this harness build)"]
@@ -170,6 +176,58 @@ impl Property for C14 {
                 r, order, again, first, describe(&s)
             );
         }
+        // a name changes hands: after a gather, every collector of one name is unregistered and collectors of ANOTHER kind
+        // (same help, same label names, same constant-label values) are registered under it; the next gather must declare
+        // and carry the new kind
+        if !mixed && src.chance(90) {
+            let names: Vec<&String> = by_name_owned(&s);
+            let g = names[src.below(names.len())].clone();
+            let old_kind = s.colls.iter().find(|c| c.name == g).unwrap().kind;
+            let cands: Vec<crate::scenario::Kind> = crate::scenario::KINDS
+                .iter()
+                .copied()
+                .filter(|k| k.is_vec() == old_kind.is_vec() && *k != crate::scenario::Kind::Pulling && k.ntype() != old_kind.ntype())
+                .collect();
+            if old_kind != crate::scenario::Kind::Pulling && !cands.is_empty() {
+                let new_kind = cands[src.below(cands.len())];
+                let reg = match build(&s, &ident) {
+                    Ok(r) => r,
+                    Err(e) => return fail("valid-scenario-rejected", format!("{} ;; {}", e, describe(&s))),
+                };
+                if let Err(v) = check_registry(&s, &reg) {
+                    return v;
+                }
+                let mut s2 = s.clone();
+                for (c_old, c_new) in s.colls.iter().zip(s2.colls.iter_mut()) {
+                    if c_old.name != g {
+                        continue;
+                    }
+                    let u = reg.unregister(crate::scenario::build_collector(c_old));
+                    ensure!(u.is_ok(), "registered-collector-not-unregistered", "{:?} ;; {}", u, describe(&s));
+                    c_new.kind = new_kind;
+                    c_new.hist_cfg = 0;
+                }
+                for c_new in s2.colls.iter().filter(|c| c.name == g) {
+                    let r = reg.register(crate::scenario::build_collector(c_new));
+                    ensure!(r.is_ok(), "valid-registration-refused", "re-using name {:?} for a {:?} after unregistering the {:?}: {:?} ;; {}", g, new_kind, old_kind, r, describe(&s));
+                }
+                rep.class("name-re-used-by-another-kind-after-unregister");
+                match check_registry(&s2, &reg) {
+                    Ok(_) => {}
+                    Err(Verdict::Fail { sig, detail }) => {
+                        return Verdict::Fail { sig, detail: format!("after name {:?} changed hands from {:?} to {:?} in a registry that had been gathered before: {}", g, old_kind, new_kind, detail) }
+                    }
+                    Err(v) => return v,
+                }
+            }
+        }
         Verdict::Pass
     }
+}
+
+fn by_name_owned(s: &Scenario) -> Vec<&String> {
+    let mut v: Vec<&String> = s.colls.iter().map(|c| &c.name).collect();
+    v.sort();
+    v.dedup();
+    v
 }
